@@ -78,6 +78,37 @@ pub fn table() -> Vec<ConstCase> {
         let name = format!("BOOL_LIT_{i}");
         t.push(ConstCase { name: name.clone(), decl: format!("const {name}: bool = {v};"), expect: Some((vec!["bool"], Bits::Bool(*v))), form: "literal" });
     }
+    // ---- decimal lengths: every digit count of each integer type, both signs, values with zero digit groups
+    {
+        let mut k = 0usize;
+        let mut p: i64 = 1;
+        for _digits in 1..=10 {
+            for v in [p, p * 10 - 1, -p, -(p * 10 - 1)] {
+                if v >= i32::MIN as i64 && v <= i32::MAX as i64 {
+                    t.push(i32c(&format!("DEC_I32_{k}"), "decimal-length", &format!("{v}"), v as i32));
+                    k += 1;
+                }
+            }
+            if p <= u32::MAX as i64 {
+                t.push(u32c(&format!("DEC_U32_{k}"), "decimal-length", &format!("{p}u"), p as u32));
+                k += 1;
+            }
+            p *= 10;
+        }
+        for v in [16000i64, 16016, 1048576, 1000001, -16000, -1000000007] {
+            t.push(i32c(&format!("DEC_I32_{k}"), "decimal-length", &format!("{v}"), v as i32));
+            k += 1;
+        }
+        for v in [-123456i64, -123456789012, 100000000000000, -999999999999999999, 1000000000000000000] {
+            let name = format!("DEC_I64_{k}");
+            t.push(ConstCase { name: name.clone(), decl: format!("const {name}: i64 = {v}li;"), expect: Some((vec!["i64"], Bits::Int(v as i128))), form: "decimal-length" });
+            k += 1;
+        }
+        for (e, v) in [("16000.0", 16000.0f32), ("1000000.0", 1000000.0), ("-123456.0", -123456.0), ("0.001", 0.001), ("1e10", 1e10), ("-1e-10", -1e-10)] {
+            t.push(f32c(&format!("DEC_F32_{k}"), "decimal-length", e, v));
+            k += 1;
+        }
+    }
     // ---- inferred types (abstract literals): either the concretised or the abstract-wide Rust type
     t.push(ConstCase { name: "INF_INT".into(), decl: "const INF_INT = 4;".into(), expect: Some((vec!["i32", "i64"], Bits::Int(4))), form: "inferred" });
     t.push(ConstCase { name: "INF_NEG".into(), decl: "const INF_NEG = -123456;".into(), expect: Some((vec!["i32", "i64"], Bits::Int(-123456))), form: "inferred" });
@@ -169,6 +200,20 @@ pub fn table() -> Vec<ConstCase> {
     t.push(ConstCase { name: "NS_ZERO_ARR".into(), decl: "const NS_ZERO_ARR = array<f32, 3>();".into(), expect: None, form: "non-scalar" });
     t.push(ConstCase { name: "NS_ZERO_STRUCT".into(), decl: "struct NsZ { a: f32 }\nconst NS_ZERO_STRUCT = NsZ();".into(), expect: None, form: "non-scalar" });
     t.push(ConstCase { name: "NS_SPLAT".into(), decl: "const NS_SPLAT = vec4<f32>(0.5);".into(), expect: None, form: "non-scalar" });
+    // every matrix shape (columns x rows), vectors of every scalar type, nested constructors, arrays of vectors / matrices
+    for c in 2..=4usize {
+        for r in 2..=4usize {
+            let args: Vec<String> = (0..c * r).map(|i| format!("{}.5", i)).collect();
+            t.push(ConstCase { name: format!("NS_MAT{c}X{r}"), decl: format!("const NS_MAT{c}X{r} = mat{c}x{r}<f32>({});", args.join(", ")), expect: None, form: "non-scalar" });
+        }
+    }
+    t.push(ConstCase { name: "NS_MAT_COLS".into(), decl: "const NS_MAT_COLS = mat3x2<f32>(vec2<f32>(1.0, 2.0), vec2<f32>(3.0, 4.0), vec2<f32>(5.0, 6.0));".into(), expect: None, form: "non-scalar" });
+    t.push(ConstCase { name: "NS_VEC_I".into(), decl: "const NS_VEC_I = vec2<i32>(-1, 2);".into(), expect: None, form: "non-scalar" });
+    t.push(ConstCase { name: "NS_VEC_U".into(), decl: "const NS_VEC_U = vec4<u32>(1u, 2u, 3u, 4u);".into(), expect: None, form: "non-scalar" });
+    t.push(ConstCase { name: "NS_VEC_B".into(), decl: "const NS_VEC_B = vec3<bool>(true, false, true);".into(), expect: None, form: "non-scalar" });
+    t.push(ConstCase { name: "NS_VEC_NESTED".into(), decl: "const NS_VEC_NESTED = vec4<f32>(vec3<f32>(1.0, 2.0, 3.0), 4.0);".into(), expect: None, form: "non-scalar" });
+    t.push(ConstCase { name: "NS_ARR_VEC".into(), decl: "const NS_ARR_VEC = array<vec2<f32>, 2>(vec2<f32>(1.0, 2.0), vec2<f32>(3.0, 4.0));".into(), expect: None, form: "non-scalar" });
+    t.push(ConstCase { name: "NS_ARR_MAT".into(), decl: "const NS_ARR_MAT = array<mat2x3<f32>, 1>(mat2x3<f32>(1.0, 2.0, 3.0, 4.0, 5.0, 6.0));".into(), expect: None, form: "non-scalar" });
     t
 }
 
@@ -443,7 +488,9 @@ pub fn run(tier: &str) -> i32 {
                                 rep.violation(case.clone(), format!("value {got:?} differs from the WGSL value {bits:?}"), detail(format!("{:?}", k.val)));
                             }
                         }
-                        Err(e) => machinery(&format!("C15: cannot read constant {}: {e}", c.name)),
+                        // the initialiser is neither a literal nor a path to a standard constant: whatever it is, it is not
+                        // the WGSL value written out (rustc decides below whether it is anything at all)
+                        Err(e) => rep.violation(case.clone(), format!("initialiser is not a literal of the WGSL value: {}", e.chars().take(90).collect::<String>()), detail(format!("{:?}", k.val))),
                     }
                     // rustc evaluation
                     let n = &c.name;
